@@ -206,6 +206,7 @@ def finish(ctx: Ctx, explanation: str, level: str, t0: float, error: str | None 
         cov["selftest"] = {
             "rule": "thorough tier: the check is re-run on scratch copies - every recorded variant this property's rules detect must be reported (must fire), the ast.unparse twin of the tree must give the same findings (must stay silent)",
             "must_fire": st["must_fire"], "fired": st["fired"], "skipped": st["skipped"], "missed": st["missed"], "format_twin": st["twin"],
+            "refactorings": {"rule": "behaviour-preserving refactoring sets (selftest/refactors) applied to a scratch copy must leave the findings unchanged", "sets": len(st.get("refactorings", [])), "silent": sum(1 for r in st.get("refactorings", []) if r["status"] == "silent"), "alarms": st.get("alarms", [])},
         }
     if error:
         cov["analysis_error"] = error
@@ -236,7 +237,8 @@ def finish(ctx: Ctx, explanation: str, level: str, t0: float, error: str | None 
     for rid, r in ctx.rules.items():
         print(f"  {rid}: {r['instances']} instances, {r['failed']} failed - {r['text'][:110]}")
     if st is not None:
-        print(f"  self-test: {st['fired']} recorded variant(s) detected, {st['skipped']} skipped (patch does not apply), format twin {st['twin']['status']}")
+        rf = st.get("refactorings", [])
+        print(f"  self-test: {st['fired']} recorded variant(s) detected, {st['skipped']} skipped (patch does not apply), format twin {st['twin']['status']}, {sum(1 for r in rf if r['status'] == 'silent')}/{len(rf)} refactoring sets silent")
     if new:
         print(f"VIOLATION property={ctx.prop} replay={replay}")
         return 1
